@@ -187,6 +187,10 @@ def main(tier):
         "undefined_type_in_late_method": [ok1, ok2, "GET /zk3\n  200 @znosuch\n", "TYPE @zused any\n"],
         "path_property_unused": [ok1, "GET /zk3/{a}\n  Path\n  {\n    \"a\": 1,\n    \"b\": 2\n  }\n  200 any\n", ok2],
         "undeclared_tag": [ok1, "GET /zk3\n  Tags @znotag\n  200 any\n", ok2, "TAG @zother\n"],
+        "parameter_described_twice_inline_and_by_type": ["TYPE @zfp\n{\n  \"id\": 1,\n  \"fid\": 2\n}\n", "URL /zc/{id}\n  Path\n  {\n    \"id\": 1\n  }\n  GET\n    200 any\n",
+                                                         "GET /zc/{id}/friends/{fid}\n  Path\n    @zfp\n  200 any\n"],
+        "parameter_described_twice_by_two_types": ["TYPE @zfp\n{\n  \"id\": 1,\n  \"fid\": 2\n}\nTYPE @zfq\n{\n  \"id\": \"s\"\n}\n", "URL /zc/{id}\n  Path\n    @zfq\n  GET\n    200 any\n",
+                                                   "GET /zc/{id}/friends/{fid}\n  Path\n    @zfp\n  200 any\n", ok1],
         "rpc_params_undefined": [ok1, "URL /zkq\n  Protocol json-rpc-2.0\n  Method zq\n    Params\n      @znosuch\n    Result\n    {}\n", ok2],
     }
     kern = {}
